@@ -76,7 +76,7 @@ def design(ctx, names):
 def gen_cases(ctx, names, parts=None, nrandom=None):
     """(b) TLC enumerates the plan families and random nested plans."""
     if parts is None:
-        parts = ["matrix012", "values2", "values1", "refs", "computed", "eqcont", "scratch", "nestlit", "mutate", "forms"]
+        parts = ["matrix012", "values2", "values1", "refs", "computed", "eqcont", "scratch", "nestlit", "arith", "cmp", "retval", "var3", "mutate", "forms"]
         if not ctx.quick:
             parts += ["matrix012b", "matrix3", "matrix4", "values3"]
     if nrandom is None:
@@ -107,14 +107,14 @@ def gen_cases(ctx, names, parts=None, nrandom=None):
 
     def gen(part):
         import time
-        time.sleep(0.3 * (list(parts) + ["random"]).index(part))      # ctx.tlc numbers its directories without a lock
+        time.sleep(0.15 * (list(parts) + ["random"]).index(part))      # ctx.tlc numbers its directories without a lock
         if part == "random":
             depth = 50
             return ctx.tlc("AsmGen", GEN_CFG % ("TRUE", "random", fnset(names)), workers=1, timeout=900,
                            simulate="num=%d" % max(1, nrandom // depth), depth=depth)
         return ctx.tlc("AsmGen", GEN_CFG % (big, part, fnset(names)), workers=1, timeout=900)
     todo = list(parts) + (["random"] if nrandom else [])
-    with cf.ThreadPoolExecutor(4) as ex:
+    with cf.ThreadPoolExecutor(8) as ex:
         for part, r in zip(todo, ex.map(gen, todo)):
             take(r, part)
     if roots is None:
@@ -223,7 +223,7 @@ def judge_once(ctx, cases):
     if hang is not None:
         return [{"api": "asm.Plan.Execute", "kind": "hang", "locus": "hang/" + node_text(hang.get("plan", {}))[:60],
                  "witness": node_text(hang.get("plan", {})), "case": hang, "depth": 0, "plan": hang.get("plan", {})}], 0
-    res = ctx.validate("TraceAsm", tp, cfg=TRACE_CFG, chunk=2500 if ctx.quick else 6000, timeout=1500)
+    res = ctx.validate("TraceAsm", tp, cfg=TRACE_CFG, chunk=3100 if ctx.quick else 6000, timeout=1500)
     ctx.cov["evaluations"] += res["n"] * 11
     cells = getattr(ctx, "_cells", set())
     cells.update(res["hits"].keys())
